@@ -154,7 +154,7 @@ impl<S: WebSocket, T: TimestampProvider> Task<S, T> {
                 (true, Ok(()))
             }
         };
-        self.wind_down(should_drain_frame_rx, tx_msg_rx, dropped_flows_rx)
+        self.wind_down(should_drain_frame_rx, res.is_ok(), tx_msg_rx, dropped_flows_rx)
             .await;
         res
     }
@@ -293,6 +293,7 @@ impl<S: WebSocket, T: TimestampProvider> Task<S, T> {
     async fn wind_down(
         &self,
         should_drain_msg_rx: bool,
+        graceful: bool,
         mut tx_msg_rx: mpsc::UnboundedReceiver<Message>,
         mut dropped_flows_rx: mpsc::UnboundedReceiver<u32>,
     ) {
@@ -335,10 +336,26 @@ impl<S: WebSocket, T: TimestampProvider> Task<S, T> {
             }
         }
         // This will flush the remaining frames already queued for sending as well
-        poll_fn(|cx| self.ws.lock().poll_close_unpin(cx)).await.ok();
+        let closed = poll_fn(|cx| self.ws.lock().poll_close_unpin(cx)).await;
         // The above line only closes the `Sink`. Before we terminate connections,
         // we dispatch the remaining frames in the `Source` to our streams.
-        while let Some(Ok(msg)) = poll_fn(|cx| self.ws.lock().poll_next_unpin(cx)).await {
+        // We only wait for the peer to finish the closing handshake if the connection
+        // is still believed to work. After an error (transport failure, keepalive timeout,
+        // invalid frame) the peer may never speak again, so we only dispatch what is
+        // already available instead of blocking every pending operation forever.
+        let wait_for_peer = graceful && closed.is_ok();
+        loop {
+            let next = poll_fn(|cx| self.ws.lock().poll_next_unpin(cx));
+            let next = if wait_for_peer {
+                next.await
+            } else if let Some(next) = next.now_or_never() {
+                next
+            } else {
+                break;
+            };
+            let Some(Ok(msg)) = next else {
+                break;
+            };
             debug!("processing remaining message after closure {msg:?}");
             self.process_message(msg, true).await.ok();
         }
